@@ -661,7 +661,23 @@ class CallMixin:
     def call_pkg(self, qual, args, kwargs, node, fr):
         c = self.registry.get(qual)
         if c is None:
-            raise Unsupported(f"call to {qual} which has no contract")
+            # a helper without a contract (typically one a refactoring has just extracted): when it is loop-free and not
+            # recursive it is verified in place, as part of its caller, with the actual arguments
+            try:
+                mi0, fn0, canon0 = S.resolve_function(qual)
+            except S.SourceError:
+                fn0 = None
+            simple = fn0 is not None and not any(isinstance(n, (ast.For, ast.While, ast.Yield, ast.YieldFrom, ast.Lambda, ast.ListComp, ast.DictComp, ast.SetComp, ast.GeneratorExp, ast.Try, ast.With))
+                                                 for n in ast.walk(fn0)) \
+                and not any(isinstance(n, ast.Call) and isinstance(n.func, (ast.Name, ast.Attribute)) and (getattr(n.func, "id", None) == fn0.name or getattr(n.func, "attr", None) == fn0.name) for n in ast.walk(fn0))
+            if not simple:
+                raise Unsupported(f"call to {qual} which has no contract")
+            from .core import Contract as _C
+
+            c = _C(qual, inline=True)
+            self.registry = dict(self.registry)
+            self.registry[qual] = c
+            self.assumption_log.add(f"{qual} has no contract: loop-free helper verified in place at its call sites")
         cc = (c.ghost or {}).get("returns_charclass")
         if cc:
             # a function that returns a compiled one-character class built from a module-level set literal: the set is read
